@@ -32,6 +32,10 @@ CHECKS = {
     text="Exhaustive solver-driven enumeration on the real YowStack / YowStackBuilder / YowLayer / YowParallelLayer with recording layers: every stack shape up to depth 4 (thorough 6) with plain layers and parallel groups, class / implicit-tuple / instance declaration, both order conventions; send/receive fan-out and order against a reference model; every emitter x consumer position for emitted and broadcast events, detached (through the real loop()) and normal; getLayerInterface by class; all 16 getDefaultLayers and 64 getDefaultStack argument combinations; builder push/pop sequences.",
     note="Trusted: reference model of the documented semantics (sibling delivery for events emitted inside a group is only required to be at-most-once). Group sizes 2,3 (quick) / 1,2,4 (thorough, deeper stacks 2 only).",
     technique="solver-driven exhaustive enumeration of finite configurations on the real classes (choice variables decided by z3), reference-model oracle, concrete replay"),
+ "C13": dict(cat="fault_enumeration", design="4/C13",
+    text="Real Lite*Store classes on the real sqlite3 library, one temporary database per path. The solver enumerates per table every sequence of <=2 (thorough 3) API operations over small operand pools (store A / store B = replace / delete / setAsSent ...) and every execute/commit boundary of the last operation as crash point (connection abandoned without commit), then a fresh store reopens the file: every record must hold its previous or its new value, never be missing, and the own identity/registration id is unchanged. A durability harness pushes real python-axolotl records through close/reopen and the public load API.",
+    note="Trusted: sqlite's journal (an uncommitted transaction is rolled back on reopen), crash model = abandonment at statement/commit boundaries; record blobs are opaque tokens in the crash harness (sqlite only stores/compares them).",
+    technique="solver-driven fault enumeration (operation sequence x crash boundary as z3 choice variables) on the real stores over real sqlite; concrete replay"),
  "C15": dict(cat="model_checking", design="4/C15",
     text="Symbolic execution of the real mediacipher module with HKDF / AES-CBC / HMAC as uninterpreted terms (dec(enc(x))=x) and PKCS7 modelled exactly; the plaintext length L is a solver variable (0..80 quick, 0..4096 thorough; contents and key abstract). Obligations: decrypt(encrypt(p)) == p for every L and kind; the ciphertext term equals the independent reference layout (HKDF iv/key/mac key, always-padded CBC, 10-byte MAC over iv+ct); a flip at any symbolic position of ciphertext or tag, truncation, wrong key or wrong kind raises. Every model is replayed with the real cryptography library and compared byte for byte with ref/mediacipher_ref.py (own HKDF); the repository's fixture vector is checked against both.",
     note="Trusted: crypto models (ideal-primitive assumption for tamper detection: different MAC inputs give different MACs), PKCS7 model, z3; the real primitives are only exercised on the solver's witnesses and (thorough) every length 0..80.",
